@@ -460,6 +460,12 @@ Definition P_C10 (c : acase) : bool :=
       C10_walk (sort_addr (gen_validators g)) (with_prev gsn (z_blocks (parse c)))
   end.
 
+(* C12, "once released it carries no voting power": the power the consensus engine holds for a validator
+   (the genesis set folded with every EndBlock's updates) is the power of the stakes BONDED to it — a
+   released stake is not among them.  This is the mirror clause of C10, judged here on the traces C12
+   looks at (quiet, under mempool traffic, restarted right after a release). *)
+Definition P_C12_power (c : acase) : bool := P_C12 c && P_C10 c.
+
 (* ------------------------------------------------------------------ C15: governance *)
 Definition pv_frozen (p : prop_view) : bool := p.1.1.1.1.1.
 Definition pv_hdr (p : prop_view) : Z * Z * Z * Z * Z := p.1.1.1.1.2.
